@@ -55,7 +55,7 @@ pub trait Check: Sync {
     fn rule(&self) -> String;
     fn assumptions(&self) -> Vec<String>;
     /// how a fatal simulator stop (deadlock, budget) or a child killed by a signal / timeout is judged
-    fn judge_abnormal(&self, what: &str) -> Option<Violation> {
+    fn judge_abnormal(&self, _case: &Case, what: &str) -> Option<Violation> {
         Some(Violation { class: format!("abnormal:{}", what), detail: what.to_string() })
     }
     /// structural shrink candidates (generic ones are added by the driver)
@@ -211,7 +211,7 @@ pub fn eval_case(check: &dyn Check, case: &Case, timeout: Duration) -> ChildResu
         ChildOutcome::Fatal(what, rec) => {
             let mut r = ChildResult::default();
             r.recorded = rec;
-            match check.judge_abnormal(&what) {
+            match check.judge_abnormal(case, &what) {
                 Some(v) => r.violations.push(v),
                 None => r.harness_error = Some(format!("simulator stopped: {}", what)),
             }
@@ -219,7 +219,7 @@ pub fn eval_case(check: &dyn Check, case: &Case, timeout: Duration) -> ChildResu
         }
         ChildOutcome::Signal(sig) => {
             let mut r = ChildResult::default();
-            match check.judge_abnormal(&format!("killed by signal {}", sig)) {
+            match check.judge_abnormal(case, &format!("killed by signal {}", sig)) {
                 Some(v) => r.violations.push(v),
                 None => r.harness_error = Some(format!("child killed by signal {}", sig)),
             }
@@ -227,7 +227,7 @@ pub fn eval_case(check: &dyn Check, case: &Case, timeout: Duration) -> ChildResu
         }
         ChildOutcome::Timeout => {
             let mut r = ChildResult::default();
-            match check.judge_abnormal("wall-clock timeout without reaching the step budget") {
+            match check.judge_abnormal(case, "wall-clock timeout without reaching the step budget") {
                 Some(v) if check.id() == "C12" => r.violations.push(v),
                 _ => r.harness_error = Some("child wall-clock timeout".into()),
             }
@@ -252,6 +252,8 @@ pub struct Summary {
     pub preemptions: u64,
     pub threads_max: u64,
     pub violations: Vec<(Case, Violation)>,
+    /// every violation class seen: (count, first seed)
+    pub classes: BTreeMap<String, (u64, u64)>,
     pub harness_errors: Vec<(u64, String)>,
     pub samples: Vec<Value>,
 }
@@ -276,7 +278,16 @@ impl Summary {
         self.switches += o.switches;
         self.preemptions += o.preemptions;
         self.threads_max = self.threads_max.max(o.threads_max);
-        self.violations.extend(o.violations);
+        for (c, v) in o.violations {
+            if !self.violations.iter().any(|(_, x)| x.class == v.class) {
+                self.violations.push((c, v));
+            }
+        }
+        for (k, (n, s)) in o.classes {
+            let e = self.classes.entry(k).or_insert((0, s));
+            e.0 += n;
+            e.1 = e.1.min(s);
+        }
         self.harness_errors.extend(o.harness_errors);
         if self.samples.len() < 6 {
             self.samples.extend(o.samples.into_iter().take(2));
@@ -328,11 +339,14 @@ fn worker(check: &dyn Check, tier: Tier, base_seed: u64, k: usize, budget: &Budg
         if sum.samples.len() < 2 && !r.sample.is_null() {
             sum.samples.push(r.sample.clone());
         }
-        if !r.violations.is_empty() && sum.violations.len() < 3 {
-            let mut c = case.clone();
-            c.recorded = r.recorded.clone();
-            for v in r.violations.iter().take(2) {
-                sum.violations.push((c.clone(), v.clone()));
+        for v in r.violations.iter() {
+            let e = sum.classes.entry(v.class.clone()).or_insert((0, seed));
+            e.0 += 1;
+            // keep one case per class (bounded), the first one seen
+            if sum.violations.len() < 12 && !sum.violations.iter().any(|(_, x)| x.class == v.class) {
+                let mut c = case.clone();
+                c.recorded = r.recorded.clone();
+                sum.violations.push((c, v.clone()));
             }
         }
         i += budget.jobs as u64;
